@@ -22,6 +22,36 @@ package types
 // verified against them, and the components are verified against them only)
 // ---------------------------------------------------------------------------------------------
 
+// Closed-form ledger effect of a transfer (C02, C11). The chain has one action, the fee action, and
+// three outgoing routes; a controller that does something else does not satisfy these contracts.
+//   actStep: the fee action on running amount A of denomination D pays every positive fee to its
+//   decoded recipient, in list order, from the orbiter account; the running amount drops by the total.
+//@ macro actAttrs(a) = cast(a.Attributes.cachedValue, "*types/controller/action.FeeAttributes")
+//@ macro actIsFee(a) = a != nil && a.Attributes != nil && istype(a.Attributes.cachedValue, "*types/controller/action.FeeAttributes") && actAttrs(a) != nil
+//@ macro actFs(a) = actAttrs(a).FeesInfo
+//@ macro actOK(A, a) = actIsFee(a) && validFees(actFs(a)) && sum5(A, actFs(a)) < A
+//@ macro actStep(b, A, D, a) = feePay5(b, A, D, actFs(a))
+//@ macro actAmt(A, a) = A - sum5(A, actFs(a))
+//   up to two actions (identifiers are pairwise distinct and there are two supported identifiers)
+//@ macro actsOKN(A, acts, n) = (n >= 1 ==> actOK(A, acts[0])) && (n >= 2 ==> actOK(actAmt(A, acts[0]), acts[1]))
+//@ macro actsStepN(b, A, D, acts, n) = ite(n <= 0, b, ite(n == 1, actStep(b, A, D, acts[0]), actStep(actStep(b, A, D, acts[0]), actAmt(A, acts[0]), D, acts[1])))
+//@ macro actsAmtN(A, acts, n) = ite(n <= 0, A, ite(n == 1, actAmt(A, acts[0]), actAmt(actAmt(A, acts[0]), acts[1])))
+//   fwdLedger: the outgoing route takes amount A of denomination D out of the orbiter account - burned
+//   (CCTP), locked in the warp module (Hyperlane), or credited to the decoded recipient (internal).
+//@ macro isCCTPAttr(x) = istype(x, "*types/controller/forwarding.CCTPAttributes") && cast(x, "*types/controller/forwarding.CCTPAttributes") != nil
+//@ macro isHypAttr(x) = istype(x, "*types/controller/forwarding.HypAttributes") && cast(x, "*types/controller/forwarding.HypAttributes") != nil
+//@ macro isIntAttr(x) = istype(x, "*types/controller/forwarding.InternalAttributes") && cast(x, "*types/controller/forwarding.InternalAttributes") != nil
+//@ macro fwdAttrKnown(x) = isCCTPAttr(x) || isHypAttr(x) || isIntAttr(x)
+//@ macro fwdLedger(b, D, A, x) = ite(istype(x, "*types/controller/forwarding.CCTPAttributes"), burn(b, orb(), D, A),
+//@                               ite(istype(x, "*types/controller/forwarding.HypAttributes"), move(b, orb(), warpAccount(hexstr(toarray32(cast(x, "*types/controller/forwarding.HypAttributes").TokenId))), D, A),
+//@                                   move(b, orb(), decodeAddr(cast(x, "*types/controller/forwarding.InternalAttributes").Recipient), D, A)))
+//@ macro dcoin(p) = p.TransferAttributes.destinationCoin
+//@ macro fwAttr(p) = p.Forwarding.Attributes.cachedValue
+//@ macro actEffect(p) = actOK(val(old(dcoin(p).Amount)), p.Action) && bank == actStep(old(bank), val(old(dcoin(p).Amount)), old(dcoin(p).Denom), p.Action) &&
+//@                      dcoin(p).Denom == old(dcoin(p).Denom) && !isnil(dcoin(p).Amount) && val(dcoin(p).Amount) == actAmt(val(old(dcoin(p).Amount)), p.Action)
+//@ macro fwdEffect(p) = p.Forwarding.Attributes != nil && fwdAttrKnown(fwAttr(p)) && bank == fwdLedger(old(bank), dcoin(p).Denom, val(dcoin(p).Amount), fwAttr(p)) &&
+//@                      val(dcoin(p).Amount) > 0 && bal(old(bank), orb(), dcoin(p).Denom) >= val(dcoin(p).Amount)
+
 //@ func (self ActionController) HandlePacket(ctx, packet) (err)
 //@   requires[base] packet != nil && packet.Action != nil && packet.TransferAttributes != nil && taOK(packet.TransferAttributes)
 //@   counts actcalls
@@ -35,6 +65,7 @@ package types
 //@   ensures[C01] err == nil ==> bankNonneg(bank) && packet.TransferAttributes != nil
 //@   ensures[C01] err == nil && packet.TransferAttributes.destinationCoin.Denom != old(packet.TransferAttributes.destinationCoin.Denom) ==> bal(bank, orb(), old(packet.TransferAttributes.destinationCoin.Denom)) == 0
 //@   ensures[C01] err == nil ==> orbNoGainExcept(packet.TransferAttributes.destinationCoin.Denom)
+//@   ensures[C02,C11] err == nil ==> actEffect(packet)
 
 //@ func (self ForwardingController) HandlePacket(ctx, packet) (err)
 //@   requires[base] packet != nil && packet.Forwarding != nil && packet.TransferAttributes != nil && taOK(packet.TransferAttributes)
@@ -49,6 +80,7 @@ package types
 //@   ensures[C01] err == nil ==> bankNonneg(bank)
 //@   ensures[C01] err == nil ==> bal(bank, orb(), packet.TransferAttributes.destinationCoin.Denom) == bal(old(bank), orb(), packet.TransferAttributes.destinationCoin.Denom) - val(packet.TransferAttributes.destinationCoin.Amount)
 //@   ensures[C01] err == nil ==> orbNoGainExcept(packet.TransferAttributes.destinationCoin.Denom)
+//@   ensures[C02,C11] err == nil ==> fwdEffect(packet)
 
 // ---------------------------------------------------------------------------------------------
 // The handlers behind the dispatcher (C06: order, shared attributes, running coin)
@@ -66,6 +98,7 @@ package types
 //@   ensures[C01] err == nil ==> bankNonneg(bank) && packet.TransferAttributes != nil
 //@   ensures[C01] err == nil && packet.TransferAttributes.destinationCoin.Denom != old(packet.TransferAttributes.destinationCoin.Denom) ==> bal(bank, orb(), old(packet.TransferAttributes.destinationCoin.Denom)) == 0
 //@   ensures[C01] err == nil ==> orbNoGainExcept(packet.TransferAttributes.destinationCoin.Denom)
+//@   ensures[C02,C11] err == nil ==> actEffect(packet)
 
 //@ func (self PacketHandler[*types.ForwardingPacket]) HandlePacket(ctx, packet) (err)
 //@   requires[base] packet != nil && packet.Forwarding != nil && packet.TransferAttributes != nil && taOK(packet.TransferAttributes)
@@ -82,6 +115,8 @@ package types
 //@   ensures[C01] err == nil ==> bankNonneg(bank)
 //@   ensures[C01] err == nil ==> bal(bank, orb(), packet.TransferAttributes.destinationCoin.Denom) == 0
 //@   ensures[C01] err == nil ==> orbNoGainExcept(packet.TransferAttributes.destinationCoin.Denom)
+//   C02/C11: the forwarder lets a controller run only when the orbiter holds exactly the running amount
+//@   ensures[C02,C11] err == nil ==> fwdEffect(packet) && bal(old(bank), orb(), dcoin(packet).Denom) == val(dcoin(packet).Amount)
 
 // ---------------------------------------------------------------------------------------------
 // The payload adapter behind the IBC middleware (interface-level contracts, implemented by the
@@ -101,6 +136,7 @@ package types
 //@ func (self PayloadAdapter) AdaptPacket(ctx, id, packet) (op, err)
 //@   requires[base] packet != nil && ref(packet) != 0
 //@   sets-post adapt_err = err
+//@   sets-post adapt_op = op
 //@   ensures[base]  err == nil ==> op != nil && op.TransferAttributes != nil && taOK(op.TransferAttributes) && op.Payload != nil && payloadOK(op.Payload)
 //@   ensures[base]  op != nil ==> err == nil
 //@   ensures[base]  err == nil ==> fresh(op) && fresh(op.TransferAttributes)
@@ -142,6 +178,7 @@ package types
 //@   requires[C01] bankNonneg(bank)
 //@   ensures[C01] err == nil ==> bal(bank, core.ModuleAddress, old(opDenom(packet))) == 0
 //@   ensures[C01] err == nil ==> forall d string :: d != old(opDenom(packet)) ==> bal(bank, core.ModuleAddress, d) <= bal(old(bank), core.ModuleAddress, d)
+//@   ensures[C02,C11] err == nil ==> dispatchEffect(old(bank), val(old(packet.TransferAttributes.destinationCoin.Amount)), old(opDenom(packet)), packet.Payload)
 //@   ensures[base] wrapped_n == old(wrapped_n) && wrapped_ret == old(wrapped_ret) && hook_n == old(hook_n) && hook_failed == old(hook_failed) && adapt_err == old(adapt_err)
 
 // The adapter controller behind the adapter's router (implemented by the IBC adapter).
@@ -155,10 +192,19 @@ package types
 //@                  tracePath(ccDenom(ccPacket)) == "" && okInt(ccData(ccPacket).Amount) && result.Coin.Denom == ccDenom(ccPacket) && val(result.Coin.Amount) == parseInt(ccData(ccPacket).Amount)
 
 // The dispatcher behind the adapter (implemented by the dispatcher component).
+//   C02/C11: the whole dispatch in closed form - the actions in order on the incoming coin (A, D), then
+//   the outgoing route on what they left; the route is entered with the orbiter holding exactly that.
+//@ macro plN(pl) = len(pl.PreActions)
+//@ macro plOut(A, pl) = actsAmtN(A, pl.PreActions, plN(pl))
+//@ macro plAttr(pl) = pl.Forwarding.Attributes.cachedValue
+//@ macro dispatchLedger(b, A, D, pl) = fwdLedger(actsStepN(b, A, D, pl.PreActions, plN(pl)), D, plOut(A, pl), plAttr(pl))
+//@ macro dispatchEffect(b0, A, D, pl) = plN(pl) <= 2 && actsOKN(A, pl.PreActions, plN(pl)) && fwdAttrKnown(plAttr(pl)) && plOut(A, pl) > 0 &&
+//@                      bank == dispatchLedger(b0, A, D, pl) && bal(actsStepN(b0, A, D, pl.PreActions, plN(pl)), orb(), D) == plOut(A, pl)
 //@ func (self PayloadDispatcher) DispatchPayload(ctx, transferAttr, payload) (err)
 //@   requires[base] transferAttr != nil && taOK(transferAttr)
 //@   modifies ghosts, transferAttr.destinationCoin
 //@   requires[C01] bankNonneg(bank)
 //@   ensures[C01] err == nil ==> bal(bank, core.ModuleAddress, old(transferAttr.destinationCoin.Denom)) == 0
 //@   ensures[C01] err == nil ==> forall d string :: d != old(transferAttr.destinationCoin.Denom) ==> bal(bank, core.ModuleAddress, d) <= bal(old(bank), core.ModuleAddress, d)
+//@   ensures[C02,C11] err == nil ==> payloadOK(payload) && dispatchEffect(old(bank), val(old(transferAttr.destinationCoin.Amount)), old(transferAttr.destinationCoin.Denom), payload)
 //@   ensures[base] wrapped_n == old(wrapped_n) && wrapped_ret == old(wrapped_ret) && hook_n == old(hook_n) && hook_failed == old(hook_failed) && adapt_err == old(adapt_err)
